@@ -11,6 +11,7 @@ import (
 	"sort"
 	"strconv"
 	"strings"
+	"sync/atomic"
 
 	protoMetricsV1 "github.com/lindb/common/proto/gen/v1/linmetrics"
 	"github.com/lindb/roaring"
@@ -32,6 +33,48 @@ type sys struct {
 	meta    index.MetricMetaDatabase
 	shards  []index.MetricIndexDatabase
 	conv    *metric.BrokerRowProtoConverter
+
+	// Aliasing discipline (what checks that the code copies every name it keeps): every []byte
+	// argument of a get-or-create call is a sub-slice of ONE reused buffer (names always start at the
+	// same offsets, as rows decoded zero-copy into the replicator's reused decompress buffer do), and
+	// the buffer is overwritten right after the call returns. The model treats names as values.
+	argBuf  []byte
+	rowBuf  []byte
+	bufBusy atomic.Bool // a second goroutine (witness schedules) gets a private buffer
+}
+
+// callArgs lays the strings out one after the other from offset 0 of the reused buffer and returns
+// the sub-slices and the function that scribbles over them (to be called when the call has returned).
+func (s *sys) callArgs(parts ...string) ([][]byte, func()) {
+	n := 0
+	for _, p := range parts {
+		n += len(p)
+	}
+	var buf []byte
+	shared := s.bufBusy.CompareAndSwap(false, true)
+	if shared {
+		if cap(s.argBuf) < n {
+			s.argBuf = make([]byte, 0, 2*n+64)
+		}
+		buf = s.argBuf[:n]
+	} else {
+		buf = make([]byte, n)
+	}
+	out := make([][]byte, len(parts))
+	off := 0
+	for i, p := range parts {
+		copy(buf[off:], p)
+		out[i] = buf[off : off+len(p) : off+len(p)]
+		off += len(p)
+	}
+	return out, func() {
+		for i := range buf {
+			buf[i] = '#'
+		}
+		if shared {
+			s.bufBusy.Store(false)
+		}
+	}
 }
 
 func newSys(dbName string, nShards int) (*sys, error) {
@@ -176,7 +219,12 @@ func (s *sys) row(ns, name int, tags []kv) (*metric.StorageRow, error) {
 	if err != nil {
 		return nil, err
 	}
-	cp := append([]byte(nil), data...)
+	// the row is a flat-buffer view into a reused block (scribbled over by genSeries after the call)
+	if cap(s.rowBuf) < len(data) {
+		s.rowBuf = make([]byte, 0, 2*len(data)+256)
+	}
+	cp := s.rowBuf[:len(data)]
+	copy(cp, data)
 	br := metric.NewStorageBatchRows()
 	br.UnmarshalRows(cp) // strips the size prefix, as the storage write path does
 	if br.Len() != 1 {
@@ -227,7 +275,9 @@ func bitmapOut(b *roaring.Bitmap, err error) string {
 // ---- the operations (each returns the canonical output line)
 
 func (s *sys) genMetric(ns, name int) (uint32, error) {
-	id, err := s.meta.GenMetricID([]byte(nsString(ns)), []byte(metricString(name)))
+	a, done := s.callArgs(nsString(ns), metricString(name))
+	id, err := s.meta.GenMetricID(a[0], a[1])
+	done()
 	return uint32(id), err
 }
 
@@ -242,12 +292,17 @@ func (s *sys) genField(metricID, f int) (uint32, error) {
 }
 
 func (s *sys) genTagKey(metricID, k int) (uint32, error) {
-	id, err := s.meta.GenTagKeyID(metric.ID(metricID), []byte(tagKeyString(k)))
+	a, done := s.callArgs(tagKeyString(k))
+	id, err := s.meta.GenTagKeyID(metric.ID(metricID), a[0])
+	done()
 	return uint32(id), err
 }
 
 func (s *sys) genTagValue(tagKeyID, v int) (uint32, error) {
-	return s.meta.GenTagValueID(tag.KeyID(tagKeyID), []byte(tagValString(v)))
+	a, done := s.callArgs(tagValString(v))
+	id, err := s.meta.GenTagValueID(tag.KeyID(tagKeyID), a[0])
+	done()
+	return id, err
 }
 
 func (s *sys) findTagValue(tagKeyID, v int) string {
@@ -299,7 +354,11 @@ func (s *sys) genSeries(shard, ns, name, metricID int, tags []kv) (uint32, error
 	if err != nil {
 		return 0, err
 	}
-	return s.shards[shard].GenSeriesID(metric.ID(metricID), r)
+	id, err := s.shards[shard].GenSeriesID(metric.ID(metricID), r)
+	for i := range s.rowBuf[:cap(s.rowBuf)] {
+		s.rowBuf[:cap(s.rowBuf)][i] = '#'
+	}
+	return id, err
 }
 
 func (s *sys) metricSeries(shard, metricID int) string {
